@@ -375,7 +375,7 @@ theorem never_panics (name : Bytes) (s : Sig) (isNil : Bool) (hwf : s.WF = true)
 
 /-- the nil check at set-up is needed: a nil function value that reached `callNative` would panic in `reflect.Value.Call` -/
 theorem nil_func_would_panic : ∃ w, (callNative ⟨[.prim .int false], false, [.prim .int false]⟩ true [] (fun _ => (.i 0, none))).1 = .panic w :=
-  ⟨_, by decide⟩
+  ⟨"reflect.Value.Call rejects the call", by decide⟩
 
 /-- …and it is made: a nil function value is rejected whatever its signature -/
 theorem nil_func_rejected (name : Bytes) (s : Sig) : ∃ e, checkNativeFunc (isKeyword name) (.func s true) = (.err [], some e) :=
